@@ -187,6 +187,15 @@ func seqTemplates() []func(k int) model.Stmt {
 		func(k int) model.Stmt {
 			return model.Stmt{Kind: model.SWhile, Cond: fl("W", k), Body: []model.Stmt{cmd("c", k), {Kind: model.SBreak}, {Kind: model.SLabel, Name: n("M", k)}, cmd("e", k)}}
 		},
+		func(k int) model.Stmt { // a guarded continue in a case body shared by two case values, in a loop
+			return model.Stmt{Kind: model.SWhile, Cond: fl("W", k), Body: []model.Stmt{{Kind: model.SSwitch, Operand: mvar(n("X", k)), Cases: []model.Case{
+				{Val: 1}, {Val: 2, Body: []model.Stmt{cmd("c", k), {Kind: model.SIf, Arms: []model.Arm{{Cond: fl("K", k), Body: []model.Stmt{{Kind: model.SContinue}}}}}, cmd("e", k)}},
+				{Val: 3, Body: []model.Stmt{cmd("d", k)}}}}, cmd("f", k)}}
+		},
+		func(k int) model.Stmt { // a switch directly followed by return, the two closing a nested block
+			return model.Stmt{Kind: model.SIf, Arms: []model.Arm{{Cond: fl("F", k), Body: []model.Stmt{
+				{Kind: model.SSwitch, Operand: mvar(n("X", k)), Cases: []model.Case{{Val: 1, Body: []model.Stmt{cmd("c", k)}}, {Val: 2, Body: []model.Stmt{cmd("d", k)}}}}, {Kind: model.SReturn}}}}}
+		},
 	}
 }
 
